@@ -25,10 +25,11 @@ theorem C16_scope_order :
   · intro a b; cases a <;> cases b <;> decide
 
 /-- **C16 (every reported mismatch is a real scope inversion between the two definitions it
-    names).** -/
-theorem C16_mismatch_sound (ix : List Def) (names : List String) (f : Path) (fd dd : Def)
-    (h : (fd, dd) ∈ mismatchesIn ix names f) :
-    fd ∈ ix ∧ fd.file = f ∧ dd ∈ ix ∧ dd.name ∈ fd.deps ∧ dd.scope < fd.scope := by
+    names)**: the fixture is defined in the file, the other definition is what the resolver `res`
+    selected for one of its dependencies, and its scope is strictly narrower. -/
+theorem C16_mismatch_sound (ix : List Def) (res : Def → String → Option Def) (names : List String) (f : Path)
+    (fd dd : Def) (h : (fd, dd) ∈ mismatchesIn ix res names f) :
+    fd ∈ ix ∧ fd.file = f ∧ (∃ dep ∈ fd.deps, res fd dep = some dd) ∧ dd.scope < fd.scope := by
   unfold mismatchesIn at h
   rw [List.mem_flatMap] at h
   obtain ⟨n, _, hn⟩ := h
@@ -37,7 +38,7 @@ theorem C16_mismatch_sound (ix : List Def) (names : List String) (f : Path) (fd 
   | some fd' =>
     simp only [hf, List.mem_filterMap] at hn
     obtain ⟨dep, hdep, hopt⟩ := hn
-    cases hh : (defsOf ix dep).head? with
+    cases hh : res fd' dep with
     | none => simp [hh] at hopt
     | some dd' =>
       simp only [hh] at hopt
@@ -47,37 +48,67 @@ theorem C16_mismatch_sound (ix : List Def) (names : List String) (f : Path) (fd 
         obtain ⟨rfl, rfl⟩ := hopt
         have m1 := mem_defsOf.mp (List.mem_of_find?_eq_some hf)
         have p1 := List.find?_some hf
-        have m2 := mem_defsOf.mp (List.mem_of_head? hh)
-        exact ⟨m1.1, by simpa using p1, m2.1, by rw [m2.2]; exact hdep, hlt⟩
+        exact ⟨m1.1, by simpa using p1, ⟨dep, hdep, hh⟩, hlt⟩
       · simp at hopt
 
-/-- **C16 (… and every inversion against the first-registered definition of the dependency is
-    reported).** -/
-theorem C16_mismatch_complete (ix : List Def) (names : List String) (f : Path) (n dep : String) (fd dd : Def)
+/-- **C16 (… and every inversion against the selected definition of a dependency is reported).** -/
+theorem C16_mismatch_complete (ix : List Def) (res : Def → String → Option Def) (names : List String) (f : Path)
+    (n dep : String) (fd dd : Def)
     (hn : n ∈ names) (hf : (defsOf ix n).find? (fun d => d.file == f) = some fd)
-    (hdep : dep ∈ fd.deps) (hh : (defsOf ix dep).head? = some dd) (hlt : dd.scope < fd.scope) :
-    (fd, dd) ∈ mismatchesIn ix names f := by
+    (hdep : dep ∈ fd.deps) (hh : res fd dep = some dd) (hlt : dd.scope < fd.scope) :
+    (fd, dd) ∈ mismatchesIn ix res names f := by
   unfold mismatchesIn
   rw [List.mem_flatMap]
   refine ⟨n, hn, ?_⟩
   simp only [hf, List.mem_filterMap]
   exact ⟨dep, hdep, by simp [hh, hlt]⟩
 
-/-- **C16 (partial: with one definition per dependency name the verdict is about the resolved
-    definition).** When the dependency name has a single definition, what resolution selects for
-    the fixture's file — if anything — is the definition the scope check looked at. -/
-theorem C16_single_def_is_resolved (ix : List Def) (imp : Path → String → Bool) (f : Path) (dep : String)
-    (e : Def) (huniq : ∀ a ∈ ix, ∀ b ∈ ix, a.name = dep → b.name = dep → a = b)
-    (hr : resolve ix imp f dep = some e) : (defsOf ix dep).head? = some e := by
-  have hm := resolve_mem hr
-  cases hd : defsOf ix dep with
-  | nil =>
-    have : e ∈ defsOf ix dep := mem_defsOf.mpr hm
-    rw [hd] at this; cases this
-  | cons a as =>
-    have ha : a ∈ defsOf ix dep := by rw [hd]; exact List.mem_cons_self
-    have ma := mem_defsOf.mp ha
-    simp [huniq a ma.1 e hm.1 ma.2 hm.2]
+/-- **C16 (the scope verdict is about the definition resolution selects).** With the resolver the
+    code uses since the E14 repair (`scopeRes`: `find_closest_definition` from the fixture's file;
+    for the fixture's own name the definition it overrides): a scope-mismatch on fixture `fd` about
+    `dd` is issued IF AND ONLY IF `dd` is the definition resolution selects, from `fd`'s file, for
+    one of `fd`'s dependencies, and `dd`'s scope is narrower — the property's sentence, for every
+    index, import relation and file.  Definitions of the same name that resolution does not select
+    (an unrelated conftest elsewhere, a later registration) cannot change the verdict. -/
+theorem C16_mismatch_iff_resolved (ix : List Def) (imp : Path → String → Bool) (names : List String) (f : Path)
+    (fd dd : Def) :
+    (fd, dd) ∈ mismatchesIn ix (scopeRes ix imp f) names f ↔
+      (∃ n ∈ names, (defsOf ix n).find? (fun d => d.file == f) = some fd) ∧
+      (∃ dep ∈ fd.deps, scopeRes ix imp f fd dep = some dd) ∧ dd.scope < fd.scope := by
+  constructor
+  · intro h
+    have hs := C16_mismatch_sound ix _ names f fd dd h
+    refine ⟨?_, hs.2.2.1, hs.2.2.2⟩
+    unfold mismatchesIn at h
+    rw [List.mem_flatMap] at h
+    obtain ⟨n, hn, hm⟩ := h
+    refine ⟨n, hn, ?_⟩
+    cases hf : (defsOf ix n).find? (fun d => d.file == f) with
+    | none => simp [hf] at hm
+    | some fd' =>
+      simp only [hf, List.mem_filterMap] at hm
+      obtain ⟨dep, _, hopt⟩ := hm
+      cases hh : scopeRes ix imp f fd' dep with
+      | none => simp [hh] at hopt
+      | some dd' =>
+        simp only [hh] at hopt
+        split at hopt
+        · simp at hopt; rw [hopt.1]
+        · simp at hopt
+  · rintro ⟨⟨n, hn, hf⟩, ⟨dep, hdep, hr⟩, hlt⟩
+    exact C16_mismatch_complete ix _ names f n dep fd dd hn hf hdep hr hlt
+
+/-- what `scopeRes` selects is a definition of the dependency's name in the index, and never the
+    requesting fixture itself when it requests its own name -/
+theorem C16_scopeRes_mem (ix : List Def) (imp : Path → String → Bool) (f : Path) (fd dd : Def) (dep : String)
+    (h : scopeRes ix imp f fd dep = some dd) : dd ∈ ix ∧ dd.name = dep ∧ (dep = fd.name → dd ≠ fd) := by
+  unfold scopeRes at h
+  split at h
+  · have := resolveF_mem h
+    exact ⟨this.1, this.2.1, fun _ => by simpa using this.2.2⟩
+  · rename_i hne
+    have := resolve_mem h
+    exact ⟨this.1, this.2, fun e => absurd (by simpa using e) hne⟩
 
 /-- the name-level graph only has edges to names that are defined (dependencies on unknown names
     are dropped wherever they stand in the parameter list) -/
